@@ -2,7 +2,7 @@
  * on the deterministic scheduler (harness/detsched), for property C18.
  *
  * stdin: one case per line
- *     case <id> A=<op,op,..> B=<op,op,..|-> sched=<t,t,..|-> [policy=sticky|lowest] [dfs=1]
+ *     case <id> A=<op,op,..> B=<op,op,..|-> sched=<t,t,..|-> [policy=fair|sticky|lowest] [dfs=1]
  * ops: on off (camera_set with the software frame trigger enabled / disabled), start, stop,
  *      trig (camera_execute_trigger), get (camera_get_frame).
  * Thread A is the main thread (tid 0) and runs script A; if script B is not "-" A first creates
@@ -211,7 +211,8 @@ on_event(void* ctx, const struct detsched_event* ev)
 {
     (void)ctx;
     if (H.dfs) {
-        printf("DS-DECISION step=%llu prev=%d chosen=%d enabled=", (unsigned long long)ev->step, ev->prev, ev->tid);
+        printf("DS-DECISION step=%llu prev=%d prevkind=%s chosen=%d enabled=", (unsigned long long)ev->step, ev->prev,
+               ev->prev_kind < 0 ? "-" : detsched_kind_name(ev->prev_kind), ev->tid);
         int first = 1;
         for (int i = 0; i < DETSCHED_MAX_THREADS; ++i)
             if (ev->enabled_mask & (1ull << i)) {
@@ -255,7 +256,9 @@ on_terminal(void* ctx, int code)
         } else
             other = 1;
     }
-    if (code == DETSCHED_EXIT_MISUSE)
+    if (code == DETSCHED_EXIT_STEP_LIMIT)
+        printf("NOTE step-limit A=%s B=%s\n", a, b);
+    else if (code == DETSCHED_EXIT_MISUSE)
         printf("ORACLE misuse-of-synchronisation %s A=%s B=%s\n", what, a, b);
     else if (stop_pending)
         printf("ORACLE stop-does-not-return %s A=%s B=%s\n", what, a, b);
@@ -415,7 +418,7 @@ parse_ops(const char* text, int* ops)
 static int
 run_case(char* line)
 {
-    char id[64] = "", a[512] = "-", b[512] = "-", sched[8192] = "-", policy[32] = "sticky";
+    char id[64] = "", a[512] = "-", b[512] = "-", sched[8192] = "-", policy[32] = "fair";
     int dfs = 0;
     long limit = 4000;
     for (char* tok = strtok(line, " \t\n"); tok; tok = strtok(0, " \t\n")) {
@@ -451,7 +454,7 @@ run_case(char* line)
     detsched_config_default(&cfg);
     int* s = 0;
     cfg.mode = DETSCHED_EXPLICIT;
-    cfg.default_policy = !strcmp(policy, "lowest") ? DETSCHED_LOWEST : DETSCHED_STICKY;
+    cfg.default_policy = !strcmp(policy, "lowest") ? DETSCHED_LOWEST : !strcmp(policy, "sticky") ? DETSCHED_STICKY : DETSCHED_FAIR;
     cfg.nschedule = strcmp(sched, "-") ? detsched_parse_schedule(sched, &s) : 0;
     cfg.schedule = s;
     cfg.step_limit = (size_t)limit;
